@@ -1,0 +1,151 @@
+//go:build verif
+
+package cff
+
+import (
+	"bytes"
+
+	"seehuhn.de/go/sfnt/glyph"
+	"seehuhn.de/go/sfnt/parser"
+)
+
+// Thin exports of unexported CFF section encoders/decoders for the /verif
+// correspondence harness (property C13).  Add-only; compiled only with the
+// build tag "verif".  No behaviour is changed.
+
+// VerifIndexEncode is cffIndex.encode.
+func VerifIndexEncode(blobs [][]byte) []byte { return cffIndex(blobs).encode() }
+
+// VerifReadIndex runs readIndex on data, starting at position pos, and also
+// returns the parser position after the call.
+func VerifReadIndex(data []byte, pos int64) ([][]byte, int64, error) {
+	p := parser.New(bytes.NewReader(data))
+	if err := p.SeekPos(pos); err != nil {
+		return nil, 0, err
+	}
+	idx, err := readIndex(p)
+	return [][]byte(idx), p.Pos(), err
+}
+
+// VerifDictEncode encodes a DICT with the given operators (in any order; the
+// encoder sorts them) using a fresh string table.  Operands are int32 or float64
+// or string.  The custom strings allocated are returned, too.
+func VerifDictEncode(ops []uint16, args [][]interface{}) ([]byte, []string) {
+	d := cffDict{}
+	for i, op := range ops {
+		d[dictOp(op)] = args[i]
+	}
+	ss := &cffStrings{}
+	out := d.encode(ss)
+	return out, ss.data
+}
+
+// VerifDictDecode is decodeDict with the given custom strings; the result is
+// returned as parallel slices sorted by operator.
+func VerifDictDecode(buf []byte, custom []string) ([]uint16, [][]interface{}, error) {
+	d, err := decodeDict(buf, &cffStrings{data: custom})
+	if err != nil {
+		return nil, nil, err
+	}
+	var ops []uint16
+	var args [][]interface{}
+	for _, k := range d.sortedKeys() {
+		ops = append(ops, uint16(k))
+		args = append(args, d[k])
+	}
+	return ops, args, nil
+}
+
+// VerifEncodeFloat is encodeFloat.
+func VerifEncodeFloat(x float64) []byte { return encodeFloat(x) }
+
+// VerifDecodeFloat is decodeFloat (input without the leading 0x1e).
+func VerifDecodeFloat(buf []byte) ([]byte, float64, error) { return decodeFloat(buf) }
+
+// VerifEncodeCharset is encodeCharset.
+func VerifEncodeCharset(names []int32) ([]byte, error) { return encodeCharset(names) }
+
+// VerifReadCharset is readCharset on data; also returns the position after the call.
+func VerifReadCharset(data []byte, nGlyphs int) ([]int32, int64, error) {
+	p := parser.New(bytes.NewReader(data))
+	res, err := readCharset(p, nGlyphs)
+	return res, p.Pos(), err
+}
+
+// VerifFDSelectEncode is FDSelectFn.encode.
+func VerifFDSelectEncode(fn FDSelectFn, nGlyphs int) []byte { return fn.encode(nGlyphs) }
+
+// VerifReadFDSelect is readFDSelect on data.
+func VerifReadFDSelect(data []byte, nGlyphs, nPrivate int) (FDSelectFn, error) {
+	p := parser.New(bytes.NewReader(data))
+	return readFDSelect(p, nGlyphs, nPrivate)
+}
+
+// VerifEncodeEncoding is encodeEncoding.
+func VerifEncodeEncoding(encoding []glyph.ID, glyphNames []int32) ([]byte, error) {
+	return encodeEncoding(encoding, glyphNames)
+}
+
+// VerifReadEncoding is readEncoding on data.
+func VerifReadEncoding(data []byte, charset []int32) ([]glyph.ID, error) {
+	p := parser.New(bytes.NewReader(data))
+	return readEncoding(p, charset)
+}
+
+// VerifStdStrings returns the standard strings table.
+func VerifStdStrings() []string { return stdStrings }
+
+// VerifStringLookup allocates SIDs for the given strings in order, in a fresh table,
+// and returns the SIDs and the resulting custom string list.
+func VerifStringLookup(names []string) ([]int32, []string) {
+	ss := &cffStrings{}
+	out := make([]int32, len(names))
+	for i, s := range names {
+		out[i] = ss.lookup(s)
+	}
+	return out, ss.data
+}
+
+// VerifStringGet is cffStrings.get with the given custom strings.
+func VerifStringGet(custom []string, i int32) (string, error) {
+	return (&cffStrings{data: custom}).get(i)
+}
+
+// VerifSelectWidths is (*Font).selectWidths.
+func VerifSelectWidths(f *Font) (float64, float64) { return f.selectWidths() }
+
+// VerifOffsSize is offsSize.
+func VerifOffsSize(i int32) byte { return offsSize(i) }
+
+// VerifPrivateWidths returns the operands stored for DefaultWidthX and NominalWidthX by
+// makePrivateDict(0, ...) for the widths chosen by selectWidths (nil = entry omitted).
+func VerifPrivateWidths(f *Font) (dw, nw float64, dOp, nOp []interface{}) {
+	dw, nw = f.selectWidths()
+	d := f.makePrivateDict(0, dw, nw)
+	return dw, nw, d[opDefaultWidthX], d[opNominalWidthX]
+}
+
+// VerifEncodeCharStrings is (*Font).encodeCharStrings: the charstrings and the default and
+// nominal widths chosen for them.
+func VerifEncodeCharStrings(f *Font) ([][]byte, float64, float64, error) {
+	cc, dw, nw, err := f.encodeCharStrings()
+	return [][]byte(cc), dw, nw, err
+}
+
+// VerifExpertEncoding is expertEncoding: the predefined Expert encoding for the given glyphs.
+func VerifExpertEncoding(glyphs []*Glyph) []glyph.ID { return expertEncoding(glyphs) }
+
+// VerifExpertNames lists the glyph names of the predefined Expert encoding (sorted by code).
+func VerifExpertNames() []string {
+	byCode := make([]string, 256)
+	for name, code := range expertEnc {
+		byCode[code] = name
+	}
+	var out []string
+	for _, n := range byCode {
+		if n != "" {
+			out = append(out, n)
+		}
+	}
+	return out
+}
